@@ -35,6 +35,7 @@ BAD_NAMES = {1: "panic/unreachable arm reached", 2: "payload or waker cell used 
              3: "event memory accessed after the storage was released", 4: "waker bookkeeping (two wakers in hand / wake without waker)",
              5: "state byte outside the modelled domain", 6: "receiver outcome contradicts what the sender did"}
 RACE_CELL, RACE_RELEASE = 1, 2
+LOCAL_KINDS = ("NOP", "CLONE", "WAKE", "DROP_WAKER", "DROP_VALUE", "FENCE", "SPIN")
 
 
 def mx(a, b):
@@ -45,16 +46,37 @@ class St:
     """Symbolic state at one step."""
     STALE = False
 
-    def __init__(self, i, T, cells):
+    def __init__(self, i, T, cells, locs=("state",), awaiters=0, nops=0):
         n = lambda s: "%s@%d" % (s, i)
         self.T = T
+        self.locs = locs
+        self.nA = awaiters
+        self.nops = nops
+        self.curL = {l: z3.BitVec(n("cur_" + l), 8) for l in locs}
+        self.RVL = {l: [NUM(n("RV_%s_%d" % (l, u))) for u in range(T)] for l in locs}
+        # mutex
+        self.mfree = z3.Bool(n("mfree"))
+        self.MV = [NUM(n("MV%d" % u)) for u in range(T)]
+        # abstract awaiter set (guarded by the mutex)
+        self.reg = [z3.Bool(n("reg%d" % a)) for a in range(awaiters)]
+        self.ordr = [NUM(n("ord%d" % a)) for a in range(awaiters)]
+        self.wk = [z3.BitVec(n("wk%d" % a), 8) for a in range(awaiters)]
+        self.gen = [NUM(n("gen%d" % a)) for a in range(awaiters)]
+        self.lastw = [z3.BitVec(n("lastw%d" % a), 8) for a in range(awaiters)]
+        self.regstep = [NUM(n("regstep%d" % a)) for a in range(awaiters)]
+        self.seq = NUM(n("seq"))
+        self.setgen = NUM(n("setgen"))
+        # per logical operation: invocation / response step, result, status
+        self.inv = [NUM(n("inv%d" % o)) for o in range(nops)]
+        self.resp = [NUM(n("resp%d" % o)) for o in range(nops)]
+        self.res = [z3.BitVec(n("res%d" % o), 8) for o in range(nops)]
+        self.status = [z3.BitVec(n("status%d" % o), 8) for o in range(nops)]   # 0 not started, 1 running, 2 completed, 3 cancelled
         self.pc = [NUM(n("pc%d" % t)) for t in range(T)]
         self.hlen = z3.Int(n("hlen"))
         self.HV = z3.Array(n("HV"), z3.IntSort(), z3.BitVecSort(8))
         self.HR = [z3.Array(n("HR%d" % u), z3.IntSort(), z3.IntSort()) for u in range(T)]
         self.vpos = [z3.Int(n("vpos%d" % t)) for t in range(T)]
-        self.cur = z3.BitVec(n("cur"), 8)                       # latest message (used when stale reads are off)
-        self.RV = [NUM(n("RV%d" % u)) for u in range(T)]
+        self.cur = None
         self.C = [[NUM(n("C%d_%d" % (t, u))) for u in range(T)] for t in range(T)]
         self.P = [[NUM(n("P%d_%d" % (t, u))) for u in range(T)] for t in range(T)]
         self.FR = [[NUM(n("FR%d_%d" % (t, u))) for u in range(T)] for t in range(T)]
@@ -90,9 +112,28 @@ class St:
             for t in range(self.T):
                 d["vpos%d" % t] = self.vpos[t]
         else:
-            d["cur"] = self.cur
-            for u in range(self.T):
-                d["RV%d" % u] = self.RV[u]
+            for l in self.locs:
+                d["cur_" + l] = self.curL[l]
+                for u in range(self.T):
+                    d["RV_%s_%d" % (l, u)] = self.RVL[l][u]
+        d["mfree"] = self.mfree
+        for u in range(self.T):
+            d["MV%d" % u] = self.MV[u]
+        for a in range(self.nA):
+            d["reg%d" % a] = self.reg[a]
+            d["ord%d" % a] = self.ordr[a]
+            d["wk%d" % a] = self.wk[a]
+            d["gen%d" % a] = self.gen[a]
+            d["lastw%d" % a] = self.lastw[a]
+            d["regstep%d" % a] = self.regstep[a]
+        if self.nA:
+            d["seq"] = self.seq
+            d["setgen"] = self.setgen
+        for o in range(self.nops):
+            d["inv%d" % o] = self.inv[o]
+            d["resp%d" % o] = self.resp[o]
+            d["res%d" % o] = self.res[o]
+            d["status%d" % o] = self.status[o]
         for c in self.CW:
             for t in range(self.T):
                 d["CW_%s_%d" % (c, t)] = self.CW[c][t]
@@ -126,7 +167,7 @@ class Work:
 
 
 class Encoder:
-    def __init__(self, threads, k, cells=("value", "awaiter"), stale_reads=True):
+    def __init__(self, threads, k, cells=("value", "awaiter"), stale_reads=False, locs=("state",), awaiters=0, nops=0, init_vals=None):
         """threads: list of dict(nodes={id: node}, entry=id). node = dict(op=..., succ={key: target})."""
         self.threads = threads
         self.T = len(threads)
@@ -134,7 +175,9 @@ class Encoder:
         self.cells = cells
         self.stale = stale_reads
         St.STALE = stale_reads
-        self.S = [St(i, self.T, cells) for i in range(k + 1)]
+        self.locs, self.nA, self.nops = tuple(locs), awaiters, nops
+        self.init_vals = init_vals or {}
+        self.S = [St(i, self.T, cells, self.locs, awaiters, nops) for i in range(k + 1)]
         self.sched = [NUM("sched@%d" % i) for i in range(k)]
         self.rp = [z3.Int("rp@%d" % i) for i in range(k)]
         self.solver = z3.Then("simplify", "propagate-values", "solve-eqs", "bit-blast", "sat").solver() if USE_BV else z3.Solver()
@@ -162,7 +205,7 @@ class Encoder:
             else:
                 w.s("P%d_%d" % (t, u), mx(w.g("P%d_%d" % (t, u)), view[u]))
 
-    def append_msg(self, w, t, value, ordering, rmw, prev_view):
+    def append_msg(self, w, t, value, ordering, rmw, prev_view, loc="state"):
         """append a message; its release view per the ordering"""
         rvs = []
         for u in range(self.T):
@@ -172,9 +215,9 @@ class Encoder:
                 own = w.g("FR%d_%d" % (t, u))
             rvs.append(mx(prev_view[u], own) if rmw else own)
         if not self.stale:
-            w.s("cur", value)
+            w.s("cur_" + loc, value)
             for u in range(self.T):
-                w.s("RV%d" % u, rvs[u])
+                w.s("RV_%s_%d" % (loc, u), rvs[u])
             return
         pos = w.g("hlen")
         for u in range(self.T):
@@ -183,10 +226,10 @@ class Encoder:
         w.s("hlen", pos + 1)
         w.s("vpos%d" % t, pos)
 
-    def read_msg(self, w, t, i, latest):
+    def read_msg(self, w, t, i, latest, loc="state"):
         """returns (position, value, view) of the message read"""
         if not self.stale:
-            return None, w.g("cur"), [w.g("RV%d" % u) for u in range(self.T)]
+            return None, w.g("cur_" + loc), [w.g("RV_%s_%d" % (loc, u)) for u in range(self.T)]
         last = w.g("hlen") - 1
         if latest or not self.stale:
             pos = last
@@ -216,8 +259,9 @@ class Encoder:
         if kind == "ATOMIC":
             self.touch_event(w, t)
             a = op["op"]
+            loc = op.get("loc", "state")
             if a == "load":
-                pos, val, view = self.read_msg(w, t, i, latest=False)
+                pos, val, view = self.read_msg(w, t, i, latest=False, loc=loc)
                 if self.stale:
                     side.append(z3.And(self.rp[i] >= S.vpos[t], self.rp[i] <= S.hlen - 1))
                 if self.stale:
@@ -226,24 +270,24 @@ class Encoder:
                 res = val
                 nxt = self.branch_int(w, succ, res)
             elif a == "store":
-                self.append_msg(w, t, BV8(op["ints"][0]), op["ords"][0], False, None)
+                self.append_msg(w, t, BV8(op["ints"][0]), op["ords"][0], False, None, loc=loc)
                 nxt = self.single(w, succ)
             elif a in ("swap", "fetch_add", "fetch_sub", "fetch_and", "fetch_or"):
-                pos, val, view = self.read_msg(w, t, i, latest=True)
+                pos, val, view = self.read_msg(w, t, i, latest=True, loc=loc)
                 self.acquire(w, t, view, op["ords"][0])
                 arg = BV8(op["ints"][0])
                 new = {"swap": arg, "fetch_add": val + arg, "fetch_sub": val - arg, "fetch_and": val & arg, "fetch_or": val | arg}[a]
-                self.append_msg(w, t, new, op["ords"][0], True, view)
+                self.append_msg(w, t, new, op["ords"][0], True, view, loc=loc)
                 nxt = self.branch_int(w, succ, val)
             elif a == "compare_exchange":
                 exp, new = op["ints"]
                 so, fo = op["ords"]
-                pos, val, view = self.read_msg(w, t, i, latest=True)
+                pos, val, view = self.read_msg(w, t, i, latest=True, loc=loc)
                 ok = val == BV8(exp)
                 ws = Work(S)
                 ws.f = dict(w.f)
                 self.acquire(ws, t, view, so)
-                self.append_msg(ws, t, BV8(new), so, True, view)
+                self.append_msg(ws, t, BV8(new), so, True, view, loc=loc)
                 wf = Work(S)
                 wf.f = dict(w.f)
                 self.acquire(wf, t, view, fo)
@@ -255,7 +299,7 @@ class Encoder:
                 nxt = self.branch_cas(w, succ, val, exp)
             else:
                 raise ValueError("atomic op " + a)
-            latest = z3.Select(w.g("HV"), w.g("hlen") - 1) if self.stale else w.g("cur")
+            latest = z3.Select(w.g("HV"), w.g("hlen") - 1) if self.stale else w.g("cur_" + loc)
             w.flag_bad(z3.UGE(latest, BV8(8)), BAD_RANGE)
         elif kind == "FENCE":
             self.tick(w, t)
@@ -326,6 +370,93 @@ class Encoder:
             self.tick(w, t)
             w.s("vdrops", w.g("vdrops") + N(1))
             nxt = self.single(w, succ)
+        elif kind == "LOCK":
+            # enabled only while the mutex is free (see build(): a thread at a LOCK node cannot be scheduled otherwise)
+            self.tick(w, t)
+            for u in range(self.T):
+                w.s("C%d_%d" % (t, u), mx(w.g("C%d_%d" % (t, u)), w.g("MV%d" % u)))
+            w.s("mfree", z3.BoolVal(False))
+            nxt = self.single(w, succ)
+        elif kind == "UNLOCK":
+            self.tick(w, t)
+            w.flag_bad(w.g("mfree"), BAD_CELL)
+            for u in range(self.T):
+                w.s("MV%d" % u, w.g("C%d_%d" % (t, u)))
+            w.s("mfree", z3.BoolVal(True))
+            nxt = self.single(w, succ)
+        elif kind in ("SET_NOTIFY_ONE", "SET_NOTIFY_PRIOR"):
+            # abstract FIFO awaiter set (contract of awaiter_set::AwaiterSet; release builds pick the head)
+            self.tick(w, t)
+            w.flag_bad(w.g("mfree"), BAD_CELL)          # must hold the mutex
+            A_ = self.nA
+            anyreg = z3.Or(*[w.g("reg%d" % a) for a in range(A_)]) if A_ else z3.BoolVal(False)
+            # head = registered awaiter with the smallest order
+            is_head = []
+            for a in range(A_):
+                is_head.append(z3.And(w.g("reg%d" % a), *[z3.Or(z3.Not(w.g("reg%d" % b)), ge(w.g("ord%d" % b), w.g("ord%d" % a))) for b in range(A_) if b != a]))
+            fire = anyreg
+            if kind == "SET_NOTIFY_PRIOR":
+                head_old = z3.Or(*[z3.And(is_head[a], z3.Not(ge(w.g("gen%d" % a), w.g("setgen")))) for a in range(A_)]) if A_ else z3.BoolVal(False)
+                fire = z3.And(anyreg, head_old)
+            w.flag_bad(z3.And(fire, w.g("hand%d" % t) != 0), BAD_WAKER)
+            newhand = w.g("hand%d" % t)
+            for a in range(A_):
+                sel = z3.And(fire, is_head[a])
+                newhand = z3.If(sel, w.g("wk%d" % a), newhand)
+                w.s("reg%d" % a, z3.And(w.g("reg%d" % a), z3.Not(sel)))
+                # lifecycle := NOTIFIED (Release)
+                l = "lc%d" % a
+                w.s("cur_" + l, z3.If(sel, BV8(op["notified"]), w.g("cur_" + l)))
+                for u in range(self.T):
+                    w.s("RV_%s_%d" % (l, u), z3.If(sel, w.g("C%d_%d" % (t, u)), w.g("RV_%s_%d" % (l, u))))
+            w.s("hand%d" % t, newhand)
+            tn = self.target(w, succ[("ENUM", "None")])
+            ts = self.target(w, succ[("ENUM", "Some", "TOKEN")])
+            nxt = z3.If(fire, ts, tn)
+        elif kind == "SET_IS_EMPTY":
+            self.tick(w, t)
+            w.flag_bad(w.g("mfree"), BAD_CELL)
+            anyreg = z3.Or(*[w.g("reg%d" % a) for a in range(self.nA)]) if self.nA else z3.BoolVal(False)
+            nxt = z3.If(anyreg, self.target(w, succ[0]), self.target(w, succ[1]))
+        elif kind == "SET_REGISTER":
+            self.tick(w, t)
+            w.flag_bad(w.g("mfree"), BAD_CELL)
+            a = op["awaiter"]
+            l = "lc%d" % a
+            h = w.g("hand%d" % t)
+            w.flag_bad(h == 0, BAD_WAKER)
+            already = w.g("cur_" + l) == BV8(op["waiting"])
+            # re-registration replaces (drops) the stored waker; first registration appends at the tail
+            w.s("wdrops", z3.If(already, w.g("wdrops") + N(1), w.g("wdrops")))
+            w.s("wk%d" % a, h)
+            w.s("hand%d" % t, BV8(0))
+            w.s("ord%d" % a, z3.If(already, w.g("ord%d" % a), w.g("seq")))
+            w.s("seq", z3.If(already, w.g("seq"), w.g("seq") + N(1)))
+            w.s("gen%d" % a, z3.If(already, w.g("gen%d" % a), w.g("setgen")))
+            w.s("regstep%d" % a, z3.If(already, w.g("regstep%d" % a), N(i)))
+            w.s("reg%d" % a, z3.BoolVal(True))
+            w.flag_bad(w.g("cur_" + l) == BV8(op["notified"]), BAD_CELL)      # documented precondition: not NOTIFIED
+            for u in range(self.T):
+                w.s("RV_%s_%d" % (l, u), z3.If(already, w.g("RV_%s_%d" % (l, u)), w.g("C%d_%d" % (t, u))))
+            w.s("cur_" + l, BV8(op["waiting"]))
+            nxt = self.single(w, succ)
+        elif kind == "SET_UNREGISTER":
+            self.tick(w, t)
+            w.flag_bad(w.g("mfree"), BAD_CELL)
+            a = op["awaiter"]
+            l = "lc%d" % a
+            waiting = w.g("cur_" + l) == BV8(op["waiting"])
+            w.s("reg%d" % a, z3.And(w.g("reg%d" % a), z3.Not(waiting)))
+            w.s("wdrops", z3.If(waiting, w.g("wdrops") + N(1), w.g("wdrops")))
+            for u in range(self.T):
+                w.s("RV_%s_%d" % (l, u), z3.If(waiting, w.g("C%d_%d" % (t, u)), w.g("RV_%s_%d" % (l, u))))
+            w.s("cur_" + l, z3.If(waiting, BV8(op["idle"]), w.g("cur_" + l)))
+            nxt = self.single(w, succ)
+        elif kind == "SET_ADVANCE_GEN":
+            self.tick(w, t)
+            w.flag_bad(w.g("mfree"), BAD_CELL)
+            w.s("setgen", w.g("setgen") + N(1))
+            nxt = self.single(w, succ)
         elif kind == "RELEASE":
             for o in range(self.T):
                 if o != t:
@@ -353,6 +484,18 @@ class Encoder:
                 w.s("vdrops", w.g("vdrops") + N(val))
             elif key == "bad":
                 w.flag_bad(z3.BoolVal(True), val)
+            elif key == "inv":
+                w.s("inv%d" % val, N(i))
+                w.s("status%d" % val, z3.If(w.g("status%d" % val) == BV8(0), BV8(1), w.g("status%d" % val)))
+            elif key == "resp":
+                o_, status_, res_ = val
+                w.s("resp%d" % o_, N(i))
+                w.s("status%d" % o_, BV8(status_))
+                if res_ is not None:
+                    w.s("res%d" % o_, BV8(res_))
+            elif key == "lastw":
+                a_, wid = val
+                w.s("lastw%d" % a_, BV8(wid))
         return w, nxt, side
 
     def single(self, w, succ):
@@ -414,9 +557,19 @@ class Encoder:
             for t in range(T):
                 self.add(S0.vpos[t] == 0)
         else:
-            self.add(S0.cur == BV8(0))
-            for u in range(T):
-                self.add(S0.RV[u] == N(0))
+            for l in self.locs:
+                self.add(S0.curL[l] == BV8(self.init_vals.get(l, 0)))
+                for u in range(T):
+                    self.add(S0.RVL[l][u] == N(0))
+        self.add(S0.mfree)
+        for u in range(T):
+            self.add(S0.MV[u] == N(0))
+        for a in range(self.nA):
+            self.add(z3.Not(S0.reg[a]), S0.ordr[a] == N(0), S0.wk[a] == BV8(0), S0.gen[a] == N(0), S0.lastw[a] == BV8(0), S0.regstep[a] == N(0))
+        if self.nA:
+            self.add(S0.seq == N(0), S0.setgen == N(1))
+        for o in range(self.nops):
+            self.add(S0.inv[o] == N(0), S0.resp[o] == N(END), S0.res[o] == BV8(0), S0.status[o] == BV8(0))
         for t in range(T):
             self.add(S0.pc[t] == N(self.threads[t]["entry"]), S0.A[t] == N(0), S0.hand[t] == BV8(0))
             for u in range(T):
@@ -433,15 +586,40 @@ class Encoder:
             a, b = self.S[i], self.S[i + 1]
             fa, fb = a.fields(), b.fields()
             self.add(z3.ULT(self.sched[i], N(T)) if USE_BV else z3.And(self.sched[i] >= 0, self.sched[i] < T))
+            # next value of every field = ite-chain over the (thread, node) pairs that change it; the
+            # guards (sched == t and pc[t] == node) are mutually exclusive; a finished thread stutters.
+            updates = {key: [] for key in fa}
             for t in range(T):
                 g = self.sched[i] == N(t)
-                # finished thread stutters
-                self.add(z3.Implies(z3.And(g, a.pc[t] == N(END)), z3.And(*[fb[key] == fa[key] for key in fa])))
                 for nid, node in self.threads[t]["nodes"].items():
                     w, nxt, side = self.effect(t, node, a, i)
+                    if node["op"]["kind"] == "LOCK":
+                        side = side + [a.mfree]          # blocked while the mutex is held
                     w.f["pc%d" % t] = nxt
-                    eqs = [fb[key] == w.f[key] for key in fa]
-                    self.add(z3.Implies(z3.And(g, a.pc[t] == N(nid)), z3.And(*(eqs + side))))
+                    cond = z3.And(g, a.pc[t] == N(nid))
+                    for key in fa:
+                        if w.f[key] is not fa[key]:
+                            updates[key].append((cond, w.f[key]))
+                    if side:
+                        self.add(z3.Implies(cond, z3.And(*side)))
+            for key in fa:
+                e = fa[key]
+                for cond, val in reversed(updates[key]):
+                    e = z3.If(cond, val, e)
+                self.add(fb[key] == e)
+            # --- schedule reductions (sound: they only remove schedules equivalent to a kept one) ---
+            # (1) a finished thread is only scheduled (stutter) once every thread has finished
+            all_done = z3.And(*[a.pc[t] == N(END) for t in range(T)])
+            for t in range(T):
+                self.add(z3.Implies(z3.And(self.sched[i] == N(t), a.pc[t] == N(END)), all_done))
+            # (2) thread-local steps (ghost stamps, waker clone / wake / drop, fences, spin hints: they touch
+            #     nothing another thread can observe) run immediately after the preceding step of the same thread
+            if i > 0:
+                for t in range(T):
+                    local_ids = [nid for nid, node in self.threads[t]["nodes"].items() if node["op"]["kind"] in LOCAL_KINDS and not node["op"].get("late")]
+                    if local_ids:
+                        at_local = z3.Or(*[a.pc[t] == N(nid) for nid in local_ids])
+                        self.add(z3.Implies(z3.And(self.sched[i - 1] == N(t), at_local), self.sched[i] == N(t)))
 
     def done(self):
         fin = self.S[self.k]
@@ -479,7 +657,7 @@ class Encoder:
             elif op["kind"] == "FENCE":
                 desc = "fence(%s)" % op["ord"]
             nxt_s = self.S[i + 1]
-            last = m.eval(z3.Select(nxt_s.HV, nxt_s.hlen - 1) if self.stale else nxt_s.cur, model_completion=True).as_long()
+            last = m.eval(z3.Select(nxt_s.HV, nxt_s.hlen - 1) if self.stale else nxt_s.curL[self.locs[0]], model_completion=True).as_long()
             rp = m.eval(self.rp[i], model_completion=True).as_long() if (self.stale and op["kind"] == "ATOMIC" and op["op"] == "load") else None
             out.append(dict(step=i, thread=t, node=pc, op=desc, line=op.get("line"), state_after=last, read_pos=rp,
                             ghost=op.get("ghost")))
